@@ -188,6 +188,38 @@ fn loops(rep: &Reporter) {
     }
 }
 
+/// An iteration-bounded loop whose body runs another iteration-bounded loop inside a scope: the outer
+/// loop's progress must still be k/n when observed after the scope (the inner loop has its own).
+fn nested_loops(rep: &Reporter) {
+    let p = problem();
+    for n in 1..=6u32 {
+        for m in 0..=4u32 {
+            rep.case();
+            rep.nontrivial(hash_of(&("nested-loop", n, m)));
+            let before = Arc::new(Mutex::new(Vec::new()));
+            let inner = Arc::new(Mutex::new(Vec::new()));
+            let after = Arc::new(Mutex::new(Vec::new()));
+            let body: Vec<Box<dyn Component<P>>> = vec![
+                Box::new(Body { passes: before.clone() }),
+                mahf::components::Scope::new(vec![Loop::new(LessThanN::iterations(m), vec![Box::new(Body { passes: inner.clone() }) as Box<dyn Component<P>>])]),
+                Box::new(Body { passes: after.clone() }),
+            ];
+            let cfg = Configuration::new(Loop::new(LessThanN::iterations(n), body));
+            let mut st: State<P> = State::new();
+            let r = catch(|| cfg.run(&p, &mut st).map_err(|e| e.to_string()));
+            let (b, i, a) = (before.lock().unwrap().clone(), inner.lock().unwrap().clone(), after.lock().unwrap().clone());
+            let want_outer: Vec<(u32, u64)> = (0..n).map(|k| (k, (k as f64 / n as f64).to_bits())).collect();
+            let want_inner: Vec<(u32, u64)> = (0..n).flat_map(|_| (0..m).map(move |j| (j, (j as f64 / m as f64).to_bits()))).collect();
+            let bits = |v: &Vec<(u32, f64)>| v.iter().map(|x| (x.0, x.1.to_bits())).collect::<Vec<_>>();
+            if !matches!(r, Ok(Ok(()))) || bits(&b) != want_outer || bits(&i) != want_inner {
+                rep.violation("loop:nested:passes-or-progress-wrong", json!({"outer_n": n, "inner_n": m, "result": format!("{r:?}"), "outer_seen": b, "inner_seen": i}));
+            } else if bits(&a) != want_outer {
+                rep.violation("loop:nested:outer-progress-or-iterations-disturbed-by-the-inner-scoped-loop", json!({"outer_n": n, "inner_n": m, "seen_after_the_scope": a, "expected": (0..n).map(|k| (k, k as f64 / n as f64)).collect::<Vec<_>>()}));
+            }
+        }
+    }
+}
+
 // ---- optimum reached ------------------------------------------------------------------------------
 fn optimum(rep: &Reporter) {
     for (f, opt) in [(RealFn::Sphere, 0.0f64), (RealFn::NegSphere, -5.0f64)] {
@@ -501,6 +533,7 @@ fn main() {
     rep.assume("RandomChance band: |freq - p| <= sqrt(ln(2/1e-10)/(2N)); exact for p in {0,1}");
     less_than_n(&rep);
     loops(&rep);
+    nested_loops(&rep);
     optimum(&rep);
     change_of(&rep);
     random_chance(&rep);
